@@ -2,7 +2,7 @@
 import math, itertools
 import numpy as np
 from hypothesis import strategies as st
-from vlib import strat as S, oracles as O
+from vlib import strat as S, oracles as O, harness
 
 ID = "C12"
 EXHAUSTIVE = True
@@ -40,7 +40,8 @@ def strategy(tier, unit):
         "j": st.integers(0, 23), "k": st.integers(0, 23),
         "abc": st.tuples(S.logfl(1, 30), S.logfl(1, 30), S.logfl(1, 30)).map(list),
         "ang": st.tuples(S.fl(50, 130), S.fl(50, 130), S.fl(-1, 1)).map(list),
-        "dtype": st.sampled_from(["float64", "float64", "float32", "int-if-axis-aligned"])})
+        "dtype": st.sampled_from(["float64", "float64", "float32", "int-if-axis-aligned"]),
+        "checks_off": st.sampled_from([False, False, True])})
 
 
 def exhaustive(ctx, tier):
@@ -48,7 +49,7 @@ def exhaustive(ctx, tier):
     n_ops = 0
     for k in range(1, 8):
         ctx.begin({"exhaustive-system": k})
-        n_ops += exhaustive_one(ctx, k)
+        n_ops += harness.guarded_call(ctx, exhaustive_one, ctx, k) or 0
     ctx.begin({"exhaustive-system": 0})
     for bad in (0, 8, -1, 100):
         for fn in (symmetry.permutations, symmetry.rotations):
@@ -138,6 +139,10 @@ def check(case, ctx):
         U1, U2 = O.axis_aligned()[case["j"] % 24].astype(int), O.axis_aligned()[case["k"] % 24].astype(int)
         Q = O.axis_aligned()[(case["j"] + case["k"]) % 24].copy()
         ctx.event("integer-orientations")
+    if case.get("checks_off"):
+        import xfab
+        xfab.CHECKS._run_checks = False       # the angles must not depend on the input-check switch
+        ctx.event("input-checks-switched-off")
     ctx.keep("Umis(previous pair)", symmetry.Umis(U2, np.asarray(Q, U1.dtype) if dt == "float32" else Q, k))
     mis_obj = ctx.keep("Umis", symmetry.Umis(U1, U2, k))
     mis = np.asarray(mis_obj, float)
